@@ -89,7 +89,7 @@ Proof.
   - assert (Hs : Forall2 DT [str_doc (nested_hang ctx) false name None false]
                    (map etoks [estr (e_nested (ectx_of ctx)) false name None])).
     { constructor; [|constructor]. rewrite <- nested_hang_ectx. now apply str_doc_DT. }
-    destruct sub as [w|]; apply call_alt_d_nested_DT; auto; try constructor. apply wf_cls_of.
+    destruct sub as [w|]; apply call_alt_d_nested_DT; auto; try constructor; apply wf_cls_of.
 Qed.
 
 Lemma frozen_d_DT ctx len sub lst le :
@@ -109,7 +109,7 @@ Proof.
                = match sub with Some w => cn_name w | None => n_frozenset end) by now destruct sub.
   destruct len as [|n].
   - rewrite <- En. now apply call_noargs_DT.
-  - rewrite <- En. apply call_alt_d_hug_DT; auto. constructor; [apply Hl; discriminate|constructor].
+  - rewrite <- En. apply call_alt_d_hug_DT; auto.
 Qed.
 
 Definition kind_of (kind : nat) : seqkind := match kind with 0%nat => KList | 1%nat => KTuple | _ => KSet end.
@@ -226,6 +226,9 @@ Proof.
             - rewrite andb_false_r. destruct shown; [reflexivity|]. now destruct (kind_of kind). }
           rewrite Ed. cbn [app] in H. rewrite <- app_assoc in H. exact H. }
       destruct sub as [w|]; cbn [is_some negb]; [|exact Hlit].
+      revert Hlit.
+      match goal with |- DT (let '(_, _) := ?p in _) _ -> _ => destruct p as [els1 dangle] end.
+      intros Hlit.
       match type of Hlit with DT ?d ?ts =>
         pose proof (build_fncall_DT is_space_u is_linebreak ctx (general_identifier constructor)
                       [TName (cn_name constructor)] [d] [ts] [] [] true (DT_ident _ Hc)
